@@ -1345,7 +1345,7 @@ func checkLanv2(c s4Case) *vk.Failure {
 			return vk.Failf("non-finite", "%s", desc)
 		}
 	}
-	if math.Abs(cs*cs+sn*sn-1) > 8*eps {
+	if math.Abs(cs*cs+sn*sn-1) > 32*eps {
 		return vk.Failf("rotation-not-unit", "%s", desc)
 	}
 	if c2 != 0 && !(aa == dd && ((bb > 0 && c2 < 0) || (bb < 0 && c2 > 0))) {
